@@ -190,9 +190,9 @@ def queries(tier):
                      extra=[I('perm', 0, 1), B('rev')], split=['perm', 'rev'])
     else:
         qs += family('g2', 2, list(P(TYPES5, repeat=2)), True, 4, [0, 1], 900)
-        qs += family('g3', 3, list(P(TYPES5[:4], repeat=3)), False, 2, [0, 1], 1700, maxe=3)
-        qs += family('g3s', 3, list(P(['or', 'and', 'defense'], repeat=3)), True, 1, [], 1700, maxe=5)
-        qs += family('g3t', 3, [a + (c,) for a in P(TYPES5[2:], repeat=2) for c in ('or', 'and')], True, 4, [0, 1], 1700, maxe=4)
+        qs += family('g3', 3, list(P(['or', 'and', 'defense'], repeat=3)), False, 2, [0, 1], 1700, maxe=3)
+        qs += family('g3s', 3, [('defense',) + b for b in P(['or', 'and'], repeat=2)] + [('or', 'and', 'or'), ('and', 'and', 'or')], True, 1, [], 1700, maxe=4)
+        qs += family('g3t', 3, [a + (c,) for a in P(TYPES5[2:], repeat=2) for c in ('or', 'and')], False, 4, [0, 1], 1700, maxe=3, split=['k0'])
         qs += family('ord3', 3, [('defense',) + b for b in P(['or', 'and'], repeat=2)] + [('or', 'defense', 'and'), ('and', 'or', 'exist')], False, 2, [0], 1700, body=body_order,
                      extra=[I('perm', 0, 5), B('rev')], maxe=4, split=['perm', 'rev'])
     return qs
